@@ -1,0 +1,32 @@
+//go:build verif
+
+package tree
+
+import (
+	pa "github.com/benoitkugler/webrender/css/parser"
+)
+
+// VerifC07PageSelector is the observable part of a parsed @page selector.
+type VerifC07PageSelector struct {
+	Side, Name   string
+	Blank, First bool
+	A, B         int
+	Specificity  [3]int
+}
+
+// VerifC07ParsePageSelectors exposes parsePageSelectors on a prelude.
+// A nil result (invalid selector) is reported by ok = false.
+func VerifC07ParsePageSelectors(prelude []pa.Token) (out []VerifC07PageSelector, ok bool) {
+	sels := parsePageSelectors(pa.QualifiedRule{Prelude: prelude})
+	if sels == nil {
+		return nil, false
+	}
+	for _, s := range sels {
+		out = append(out, VerifC07PageSelector{
+			Side: s.Side, Name: s.Name, Blank: s.Blank, First: s.First,
+			A: s.Index.A, B: s.Index.B,
+			Specificity: [3]int(s.Specificity),
+		})
+	}
+	return out, true
+}
